@@ -312,15 +312,18 @@ Record poly := mkP { p_dtype : dtype; p_cols : list col; p_clobbered : bool }.
 
 (* polynomial_from_attributes at cell level.  coeffs: (dtype, values) per key; darg: the dtype
    argument; nk: the number of exponent rows (it only matters on the empty path).
-   dtype = darg, else the first coefficient's; the empty list is the 0-d path: one cell per
+   dtype = darg, else the common dtype (numpy.result_type) of all coefficients; the empty list is the 0-d path: one cell per
    exponent row; nothing is written on the shipped code, zeros are written after the repair. *)
+(* numpy.result_type over all coefficients passed (the repaired rule: before, the first one's dtype) *)
+Definition common_dtype (s0 : dtype) (ds : list dtype) : dtype := fold_left promote ds s0.
+
 Definition from_attributes (q : quirks) (darg : option dtype) (nk : nat) (coeffs : list (dtype * list value)) : poly :=
   match coeffs with
   | [] =>
       let d := match darg with Some d => d | None => I64 end in
       mkP d (repeat (if q_empty_unwritten q then [Unwritten] else set_values q d d [zero d] (fresh 1)) nk) false
-  | (s0, _) :: _ =>
-      let d := match darg with Some d => d | None => s0 end in
+  | (s0, _) :: rest =>
+      let d := match darg with Some d => d | None => common_dtype s0 (map fst rest) end in
       mkP d (map (fun sv => set_values q d (fst sv) (snd sv) (fresh (length (snd sv)))) coeffs)
           (existsb (fun sv => overruns q d (fst sv)) coeffs)
   end.
